@@ -26,6 +26,9 @@ def run(ctx):
     ctx.rule("C06.rhs", "rhs[:9] == (L(t, x(t)) @ y[:9].reshape(3,3)).flatten() — operand order, same t, row-major, unscaled")
     ctx.rule("C06.wiring", "LSODA(t0 = pathline start, y0[:9] = caller's F, t_bound = pathline end); result == final solver.y[:9].reshape(3,3)")
     ctx.rule("C06.independent", "the F block of the RHS and the returned F have no (deep) dependence on texture cells, parameters or mineral fields")
+    ctx.rule("C06.no-shortcut", "update_orientations has no data-dependent return that skips the integration, except under a condition that is exactly "
+                                "`start time == end time` (an interval of positive length whose F is returned unintegrated is not a solution of dF/dt = L.F; "
+                                "a closeness test relative to the absolute time skips arbitrarily long intervals late on a pathline)")
     ctx.rule("C06.update_all", "update_all hands its own deformation_gradient to every mineral's update and returns the last call's result")
     mloc = ctx.program.loc(ctx.program.module("pydrex.minerals"), ctx.program.require_method("pydrex.minerals.Mineral", "update_orientations")) + " (update_orientations)"
     cases = [("olivine", "olivine_A", "matrix_dislocation"), ("enstatite", "enstatite_AB", "matrix_dislocation"),
@@ -44,7 +47,10 @@ def run(ctx):
                 ctx.ob("C06.rhs", tag, False, f"update raises {R.exc!r} on the generic path", mloc)
                 continue
             one(ctx, R, tag, mloc)
+            if N == 2:
+                shortcuts(ctx, R, tag, mloc)
     ctx.floor("C06.rhs", 10)
+    ctx.floor("C06.no-shortcut", 4)
     update_all(ctx)
 
 
@@ -83,6 +89,27 @@ def one(ctx, R, tag, loc):
         dep |= alg.atoms_of(alg.unfold_all(lift(c)), deep=True)
     hit = dep & (bad | tex)
     ctx.ob("C06.independent", tag, not hit, f"F depends on {sorted(map(repr, hit))[:6]}", loc)
+
+
+def shortcuts(ctx, R, tag, loc):
+    """early returns of update_orientations itself (not of its callbacks) that are taken before any solver step"""
+    first_step = R.step_marks[0] if R.step_marks else 0
+    n = 0
+    for (gi, gl, occ) in R.I.exit_ids:
+        if gi >= len(R.I.guards):
+            continue
+        g, outcome, gloc, fn = R.I.guards[gi]
+        if not fn.endswith("update_orientations") or outcome[0] != "return":
+            continue
+        n += 1
+        t = g.astuple()
+        dt = lift(R.t1) - lift(R.t0)
+        exact = (isinstance(t, tuple) and len(t) == 5 and t[1] == "cmp" and t[2] == "Eq" and isinstance(t[3], E) and isinstance(t[4], E)
+                 and (lift(t[3]) - lift(t[4]) in (dt, ZERO - dt)))
+        ctx.ob("C06.no-shortcut", f"{tag}:return at {gloc}", exact,
+               f"update_orientations returns without integrating under {short(g, 120)}" + ("" if exact else
+               ": this is not the exact condition start == end, so intervals of positive length are returned with their F unintegrated"), gloc)
+    ctx.ob("C06.no-shortcut", f"{tag}:data-dependent returns before the solver", True, f"{n} found, all judged above", loc)
 
 
 def update_all(ctx):
